@@ -710,9 +710,11 @@ func (d *db) applyDeleteRange(batch WriteBatch, notifications *notifications, de
 	}
 	var validKeys []string
 	var validKeysNum = 0
+	var lastKey string
 	for ; it.Valid(); it.Next() {
 		validKeysNum++
 		key := it.Key()
+		lastKey = key
 		if validKeysNum <= DeleteRangeThreshold {
 			validKeys = append(validKeys, key)
 		}
@@ -735,7 +737,14 @@ func (d *db) applyDeleteRange(batch WriteBatch, notifications *notifications, de
 		return nil, errors.Wrap(err, "oxia db: failed to close iterator on delete range")
 	}
 	if validKeysNum > DeleteRangeThreshold {
-		if err := batch.DeleteRange(delReq.StartInclusive, delReq.EndExclusive); err != nil {
+		endExclusive := delReq.EndExclusive
+		if endExclusive == "" {
+			// No upper bound (the scan above treats it that way): a range tombstone needs
+			// one, or it covers nothing. No key sorts between the last key found and that
+			// key followed by a zero byte.
+			endExclusive = lastKey + "\x00"
+		}
+		if err := batch.DeleteRange(delReq.StartInclusive, endExclusive); err != nil {
 			return nil, errors.Wrap(err, "oxia db: failed to delete range")
 		}
 	} else {
